@@ -57,6 +57,8 @@ def execute_case(prop, case, want_trace=False):
             viols = list(run.judge(outcome) or [])
             res['violations'] = viols
             res['obs'] = getattr(run, 'obs_summary', lambda: None)()
+            if getattr(run, 'evals', None):
+                res['evals'] = run.evals
     except BaseException as e:   # noqa
         res['outcome'] = 'harness-error'
         res['harness_error'] = {'why': 'exception in harness', 'tb': traceback.format_exc()[-3000:]}
